@@ -118,6 +118,52 @@ static void check_macro_rt(uint64_t c)
 	vh_distinct(vh_mix(0x16, c));
 }
 
+/* arguments of types narrower than 64 bits, or signed: "c" is then the value converted to 64 bits, as the macros'
+ * own cast does; zero of every type has no set bit */
+#define TYPED_RT(T, name)                                                                          \
+	static void typed_##name(uint64_t raw)                                                     \
+	{                                                                                          \
+		volatile T v = (T)raw;                                                             \
+		uint64_t c = (uint64_t)(T)raw;                                                     \
+		int want_pop = __builtin_popcountll(c), want_lssb = c ? __builtin_ctzll(c) : -1;   \
+		int p = const_pop(v), l = const_lssb(v);                                           \
+		vh_evaluations++;                                                                  \
+		if (p != want_pop)                                                                 \
+			bad("const_pop(run-time," #T ")", c, p, want_pop);                         \
+		if (l != want_lssb)                                                                \
+			bad("const_lssb(run-time," #T ")", c, l, want_lssb);                       \
+		VH_COUNT("macro_rt_typed_arguments");                                              \
+		if (c == 0)                                                                        \
+			VH_COUNT("macro_rt_typed_zero_arguments");                                 \
+	}
+TYPED_RT(uint8_t, u8)
+TYPED_RT(uint16_t, u16)
+TYPED_RT(uint32_t, u32)
+TYPED_RT(unsigned int, uint)
+TYPED_RT(unsigned long, ulong)
+TYPED_RT(uint64_t, u64)
+TYPED_RT(int8_t, s8)
+TYPED_RT(int16_t, s16)
+TYPED_RT(int32_t, s32)
+TYPED_RT(int, sint)
+TYPED_RT(long, slong)
+TYPED_RT(int64_t, s64)
+static void (*const typed_rt[])(uint64_t) = { typed_u8,  typed_u16, typed_u32, typed_uint, typed_ulong, typed_u64,
+					      typed_s8,  typed_s16, typed_s32, typed_sint, typed_slong, typed_s64 };
+
+/* the same as integer constant expressions (static initialisers) */
+#define TC(e) { (uint64_t)(e), const_pop(e), const_lssb(e), #e }
+static const struct {
+	uint64_t c;
+	int pop, lssb;
+	const char *text;
+} typed_consts[] = {
+	TC(0), TC(0u), TC(0l), TC(0ul), TC(0ll), TC(0ull), TC(UINT32_C(0)), TC(UINT64_C(0)), TC((uint8_t)0), TC((uint16_t)0),
+	TC((int8_t)0), TC((short)0), TC('\0'), TC(1u), TC(0x80000000u), TC(0xffffffffu), TC(1u << 31), TC(-1), TC(-2), TC(INT32_MIN),
+	TC((int8_t)-128), TC((uint8_t)0x80), TC((short)-2), TC(-1l), TC(-1ll), TC(UINT64_C(1) << 63), TC(0x100000000ull),
+	TC(0xffffffff00000000ull), TC((uint16_t)0x8000), TC(0x7fffffff), TC(0x10000u), TC(sizeof(char) - 1),
+};
+
 int main(int argc, char **argv)
 {
 	vh_init(argc, argv, "bitops");
@@ -202,6 +248,34 @@ int main(int argc, char **argv)
 			check_macro_rt(c);
 			VH_COUNT("macro_rt_random");
 		}
+		/* macros, typed arguments */
+		static const uint64_t raws[] = { 0, 1, 0x80, 0xff, 0x100, 0x8000, 0xffff, 0x10000, 0x80000000ull, 0xffffffffull, 0x100000000ull,
+						 0x8000000000000000ull, ~0ull, 0xffffffff00000000ull, 0x7fffffffull, 0xfffffffffffffffeull };
+		for (unsigned t = 0; t < sizeof(typed_rt) / sizeof(typed_rt[0]); t++) {
+			for (unsigned i = 0; i < sizeof(raws) / sizeof(raws[0]); i++)
+				typed_rt[t](raws[i]);
+			for (long long k = vh_opt.proc; k < 2000; k += vh_opt.nproc) {
+				uint64_t c = vh_next(&r) << 32 ^ vh_next(&r);
+				typed_rt[t](vh_below(&r, 4) ? c : c << vh_below(&r, 64));
+			}
+		}
+		if (vh_opt.proc == 0)
+			for (unsigned i = 0; i < sizeof(typed_consts) / sizeof(typed_consts[0]); i++) {
+				uint64_t c = typed_consts[i].c;
+				int want_pop = __builtin_popcountll(c), want_lssb = c ? __builtin_ctzll(c) : -1;
+				vh_evaluations++;
+				if (typed_consts[i].pop != want_pop) {
+					char fn[96];
+					snprintf(fn, sizeof(fn), "const_pop(compile-time,typed:%s)", typed_consts[i].text);
+					bad(fn, c, typed_consts[i].pop, want_pop);
+				}
+				if (typed_consts[i].lssb != want_lssb) {
+					char fn[96];
+					snprintf(fn, sizeof(fn), "const_lssb(compile-time,typed:%s)", typed_consts[i].text);
+					bad(fn, c, typed_consts[i].lssb, want_lssb);
+				}
+				VH_COUNT("macro_compile_time_typed_constants");
+			}
 		/* macros, compile time */
 		if (vh_opt.proc == 0) {
 			for (unsigned i = 0; i < ce_table_len; i++) {
